@@ -1362,10 +1362,10 @@ func w1Run(s *simrt.Sim, script any, prop string) {
 
 var w1Flavours = map[string][]string{
 	"C04": {"_", "p_", "ej_", "r_", "d_", "_"},
-	"C05": {"_", "pe_", "ejJ_", "r_", "e_", "d_", "eM_", "MU_", "peM_"},
+	"C05": {"_", "pe_", "ejJ_", "r_", "e_", "d_", "eM_", "MU_", "peM_", "re_"},
 	"C10": {"_", "_", "p_", "jJ_", "r_", "b_", "pb_", "jJb_"},
 	"C01": {"p_", "r_", "r_", "p_", "rf_", "pf_"},
-	"C06": {"e_", "e_", "pe_"},
+	"C06": {"e_", "e_", "pe_", "re_"},
 	"C07": {"jJ_", "jJ_", "jJe_"},
 	"C08": {"_", "p_", "ejJ_"},
 	"C09": {"_", "p_", "ejJ_", "r_", "x_", "x_"},
@@ -1711,6 +1711,31 @@ func w1Gen(c *simrt.Choice, prop, tier string) any {
 	if prop == "C08" && c.Intn(2) == 0 {
 		ops := []w1Op{{K: "sleep", DelayUs: []int{0, 1, 100, 2000, 200000}[c.Intn(5)]}, {K: "shutdown"}}
 		sc.Admins = append(sc.Admins, ops)
+	}
+	// a subscribe that fails with a client error AFTER its presence entry was added
+	// (recovery from a foreign epoch with the reject-unrecovered flag on a recoverable
+	// presence channel): the connection stays, unsubscribed, and must not stay in presence
+	if prop == "C05" || prop == "C06" {
+		var chs []string
+		for _, ch := range sc.Channels {
+			if chHas(ch, 'r') && chHas(ch, 'e') {
+				chs = append(chs, ch)
+			}
+		}
+		if len(chs) > 0 && len(sc.Clients) > 0 && c.Intn(2) == 0 {
+			i := c.Intn(len(sc.Clients))
+			ops := sc.Clients[i].Ops
+			pos := len(ops)
+			for k, op := range ops {
+				if op.K == "connect" {
+					pos = k + 1 + c.Intn(len(ops)-k)
+					break
+				}
+			}
+			ins := w1Op{K: "subrec", Ch: chs[c.Intn(len(chs))], Back: c.Intn(3), Ep: "foreign", Reject: true}
+			ops = append(ops[:pos:pos], append([]w1Op{ins}, ops[pos:]...)...)
+			sc.Clients[i].Ops = ops
+		}
 	}
 	// configuration knobs added later: drawn last
 	cfg.TimerSched = c.Intn(5) == 0
